@@ -183,8 +183,8 @@ def _write_workspace(d, shards, features, extra_deps="", extra_prelude=""):
             rty = u.meta.get("root_ty", u.name)
             sam = ", ".join("{ let v: %s = %s; ser(&v) }" % (rty, s) for s in u.samples) if u.serde else ""
             de = ("deser::<%s>" % u.name) if (u.serde and u.deser) else "no_deser"
-            body = "pub mod m_%s { use super::prelude::*; %s pub fn entry() -> Entry { Entry { name: \"%s\", info: info::<%s>, samples: || vec![%s], deser: %s } } }" % (
-                u.name.lower(), u.src.replace("\n", " "), u.name, u.meta.get("root_ty", u.name), sam, de)
+            body = "pub mod m_%s { use super::prelude::*; %s pub fn entry() -> Entry { Entry { name: \"%s\", info: info::<%s>, samples: || vec![%s], deser: %s, export_all_to: export_all_to::<%s> } } }" % (
+                u.name.lower(), u.src.replace("\n", " "), u.name, u.meta.get("root_ty", u.name), sam, de, u.meta.get("root_ty", u.name))
             lines.append(body)
             line_of[len(lines)] = u.name
         lines.append("pub fn register(v: &mut Vec<Entry>) { %s }" % " ".join("v.push(m_%s::entry());" % u.name.lower() for u in units))
@@ -199,7 +199,7 @@ def _write_workspace(d, shards, features, extra_deps="", extra_prelude=""):
         '[package]\nname = "runner"\nversion = "0.0.0"\nedition = "2021"\n[dependencies]\nserde_json = "1"\n' +
         "".join('shard%d = { path = "../shard%d" }\n' % (i, i) for i in range(len(shards))))
     main = "use shard0::prelude;\nfn register(v: &mut Vec<prelude::Entry>) { %s }\n" % " ".join(
-        "{ let mut w = Vec::new(); shard%d::register(&mut w); for e in w { v.push(prelude::Entry { name: e.name, info: e.info, samples: e.samples, deser: e.deser }); } }" % i
+        "{ let mut w = Vec::new(); shard%d::register(&mut w); for e in w { v.push(prelude::Entry { name: e.name, info: e.info, samples: e.samples, deser: e.deser, export_all_to: e.export_all_to }); } }" % i
         for i in range(len(shards)))
     main += open(os.path.join(TEMPLATES, "runner_main.rs")).read()
     p = os.path.join(rd, "src", "main.rs")
@@ -285,6 +285,18 @@ class Corpus:
         rc, errs, out = _cargo_build(self.dir)
         if rc != 0:
             raise ToolError("corpus %s does not build any more:\n%s" % (self.tag, out[-3000:]))
+
+    def export(self, reqs):
+        """reqs: list of dict(name, dir[, cwd]) -> list of dict(name, result)"""
+        self._ensure_built()
+        exe = os.path.join(self.dir, "target", "debug", "runner")
+        inp = os.path.join(self.dir, "export.in")
+        outp = os.path.join(self.dir, "export.out")
+        vlib.write_ndjson(inp, reqs)
+        p = subprocess.run([exe, "export", inp, outp], cwd=self.dir)
+        if p.returncode != 0:
+            raise ToolError("corpus runner (export) failed")
+        return [json.loads(l) for l in open(outp)]
 
     def deser(self, reqs):
         """reqs: list of (id, name, json text) -> dict id -> {ok: reser} | {err}"""
